@@ -362,8 +362,9 @@ impl ActionBind {
         for binding in &mut self.bindings {
             let value = reader.value(binding.input);
             if binding.ignored {
-                // Ignore until we read zero for this mapping.
-                if value.as_bool() {
+                // Ignore until the input is physically released.
+                // Consumed inputs also read as zero, so check the raw state.
+                if reader.active_unconsumed(binding.input) {
                     continue;
                 } else {
                     binding.ignored = false;
